@@ -97,6 +97,7 @@ def invoke_history(case):
     lib = case.get("lib", "ufoLib2")
     spec = case["filter"]
     records = []
+    proj = digest_glyphset if spec["name"] in ABSTRACT else absfont.abs_glyphset
     try:
         shared = make_filter(spec)
     except Exception as e:  # constructor refuses the options: nothing to check
@@ -114,7 +115,7 @@ def invoke_history(case):
             gs = gs2 = None
         rec = {"tid": tid, "filter": spec["name"], "sep": bool(sep), "lib": lib}
         target = gs if sep else _GlyphSet.from_layer(font)
-        rec["before"] = absfont.abs_glyphset(target)
+        rec["before"] = proj(target)
         rec["inc"] = included_names(spec, target)
         src_before = snapshot.font_snapshot(font)
         raised = ""
@@ -127,7 +128,7 @@ def invoke_history(case):
         rec["raised"] = raised
         target_after = gs if sep else _GlyphSet.from_layer(font)
         try:
-            rec["after"] = absfont.abs_glyphset(target_after)
+            rec["after"] = proj(target_after)
         except absfont.Inexact as e:
             rec["skip"] = True
             rec["why"] = f"inexact: {e}"
@@ -146,14 +147,14 @@ def invoke_history(case):
             modified2 = set()
         t2 = gs2 if sep else _GlyphSet.from_layer(font2)
         try:
-            rec["fresh"] = {"after": absfont.abs_glyphset(t2), "modified": sorted(modified2 or []), "raised": raised2}
+            rec["fresh"] = {"after": proj(t2), "modified": sorted(modified2 or []), "raised": raised2}
         except absfont.Inexact:
             pass
         if case.get("again") and not raised:
             try:
                 again = make_filter(spec)
                 again(font, gs) if sep else again(font)
-                rec["again"] = absfont.abs_glyphset(gs if sep else _GlyphSet.from_layer(font))
+                rec["again"] = proj(gs if sep else _GlyphSet.from_layer(font))
             except Exception:
                 pass
         # options for the model
@@ -171,5 +172,104 @@ def invoke_history(case):
             rec["skip"] = True
             rec["why"] = f"raised {raised or raised2}"
             rec["raisedSame"] = raised == raised2
+        records.append(rec)
+    return records
+
+
+IFILTER_CLASSES = {
+    "DecomposeComponents": ("ufo2ft.filters.decomposeComponents", "DecomposeComponentsIFilter"),
+    "DecomposeTransformedComponents": ("ufo2ft.filters.decomposeTransformedComponents", "DecomposeTransformedComponentsIFilter"),
+    "FlattenComponents": ("ufo2ft.filters.flattenComponents", "FlattenComponentsIFilter"),
+    "SkipExportGlyphs": ("ufo2ft.filters.skipExportGlyphs", "SkipExportGlyphsIFilter"),
+    "PropagateAnchors": ("ufo2ft.filters.propagateAnchors", "PropagateAnchorsIFilter"),
+}
+
+
+def make_ifilter(spec):
+    import importlib
+
+    modname, clsname = IFILTER_CLASSES[spec["name"]]
+    cls = getattr(importlib.import_module(modname), clsname)
+    kwargs = dict(spec.get("kwargs") or {})
+    args = list(spec.get("args") or [])
+    inc = spec.get("include") or {"kind": "all"}
+    if inc["kind"] == "list":
+        kwargs["include"] = list(inc["names"])
+    elif inc["kind"] == "exclude":
+        kwargs["exclude"] = list(inc["names"])
+    elif inc["kind"] == "pred":
+        kwargs["include"] = PREDICATES[inc["pred"]]
+    return cls(*args, **kwargs)
+
+
+def digest_glyphset(glyphSet):
+    """Projection for abstract (numerically inexact) filters: per glyph a digest plus its component bases,
+    in the shape the TLA+ operators expect."""
+    out = {}
+    for name in sorted(glyphSet.keys()):
+        g = glyphSet[name]
+        out[name] = {
+            "cs": [],
+            "comps": [{"b": c.baseGlyph, "m": [0, 0, 0, 0], "d": [0, 0]} for c in g.components],
+            "anchors": [],
+            "w": 0,
+            "h": 0,
+            "u": [],
+            "dig": snapshot.sha({k: v for k, v in snapshot.glyph_struct(g).items() if k != "lib"}),
+        }
+    return out
+
+
+ABSTRACT = {"RemoveOverlaps", "CubicToQuadratic", "DottedCircle"}
+
+
+def invoke_ihistory(case):
+    """Interpolatable variant: one IFilter object over a sequence of master families."""
+    from ufo2ft.util import _GlyphSet
+
+    lib = case.get("lib", "ufoLib2")
+    spec = case["filter"]
+    shared = make_ifilter(spec)
+    records = []
+    proj = digest_glyphset if spec["name"] in ABSTRACT else absfont.abs_glyphset
+    for k, step in enumerate(case["steps"]):
+        tid = f"{case['cid']}/{k}"
+        fonts = [absfont.build_font({"glyphs": m, "info": step.get("info", {})}, lib) for m in step["masters"]]
+        fonts2 = [absfont.build_font({"glyphs": m, "info": step.get("info", {})}, lib) for m in step["masters"]]
+        gss = [_GlyphSet.from_layer(f, copy=True) for f in fonts]
+        gss2 = [_GlyphSet.from_layer(f, copy=True) for f in fonts2]
+        rec = {"tid": tid, "filter": spec["name"], "sep": True, "lib": lib}
+        befores = [proj(gs) for gs in gss]
+        names = set()
+        for gs in gss:
+            names |= set(included_names(spec, gs))
+        rec["inc"] = sorted(names)
+        src_before = [snapshot.font_snapshot(f) for f in fonts]
+        raised = raised2 = ""
+        try:
+            modified = shared(fonts, gss)
+        except Exception as e:
+            raised, modified = type(e).__name__, set()
+        rec["srcSame"] = src_before == [snapshot.font_snapshot(f) for f in fonts]
+        try:
+            afters = [proj(gs) for gs in gss]
+        except absfont.Inexact as e:
+            records.append({"tid": tid, "skip": True, "why": str(e)})
+            continue
+        rec["masters"] = [{"before": b, "after": a} for b, a in zip(befores, afters)]
+        rec["modified"] = sorted(modified or [])
+        fresh = make_ifilter(spec)
+        try:
+            modified2 = fresh(fonts2, gss2)
+        except Exception as e:
+            raised2, modified2 = type(e).__name__, set()
+        try:
+            rec["fresh"] = {"afters": [proj(gs) for gs in gss2], "modified": sorted(modified2 or [])}
+        except absfont.Inexact:
+            pass
+        rec["opt"] = {"skip": sorted(spec["args"][0])} if spec["name"] == "SkipExportGlyphs" else {}
+        if raised or raised2:
+            rec["skip"] = True
+            rec["why"] = f"raised {raised or raised2}"
         records.append(rec)
     return records
